@@ -15,6 +15,8 @@ environment schedule has set at that moment):
 Plain `req` operations are additionally checked by refinement against a fresh dataset evaluated
 under TZ=UTC (so a result may not depend on the zone in force at construction or request time).
 """
+import os
+
 import numpy as np
 
 from .engine_data import Oracle, adigest, describe_req, mk_axis, Quiet, classify
@@ -69,7 +71,41 @@ class C11Oracle(Oracle):
         if k == "cli":
             self.cli(sim, step, op, rec)
             return True
+        if k == "diagram":
+            self.diagram(sim, step, op, rec)
+            return True
         return False
+
+    def diagram(self, sim, step, op, rec):
+        """A plot drawn between the calendar operations (after S67): a perturbation of the process state only
+        (matplotlib rcParams, pyplot state, module globals) - its own outcome is logged, the verdicts come from
+        the labels / conversions / tables that follow."""
+        import io
+        import contextlib
+        import verif.driver
+        import matplotlib.pyplot as mpl
+        argv = ["verif", sim.names[op.get("input", 0) % sim.n_inputs], "-m", op["metric"], "-f", "c11-diagram.png"]
+        if op.get("date_index") is not None:
+            t = sim.world["universe"]["times"][op["date_index"] % len(sim.world["universe"]["times"])]
+            from . import model_calendar as MC
+            y, m, d = MC.civil_from_days(int(t) // 86400)
+            argv += ["-d", "%04d%02d%02d" % (y, m, d)]
+        status = "ok"
+        try:
+            with contextlib.redirect_stdout(io.StringIO()):
+                verif.driver.run(argv)
+        except (SystemExit, Exception) as e:
+            status = classify(e)
+        try:
+            mpl.close("all")
+        except Exception:
+            pass
+        if os.path.exists("c11-diagram.png"):
+            os.remove("c11-diagram.png")
+        rec["diagram"] = status
+        sim.stats["fired:diagram_between_calendar_ops"] += 1
+        if status == "ok":
+            sim.stats["probe:diagram_drawn"] += 1
 
     def cli(self, sim, step, op, rec):
         """`verif files -m obs -agg count -x <axis> -type csv` end to end: row labels against the calendar
